@@ -146,9 +146,9 @@ def judge(prog, exp, bad, obs):
             return [dev('wrongly-rejected:int-condition-constant-cast-to-int', dict(exc=obs[1:]), known=R.KEY_INT_TRUNC)]
         if kind == 'condition':
             # twin of the int cast: a satisfied condition is judged violated with truncated constants
+            failing = obs[2][1] if len(obs[2]) > 1 else None       # the exception names the node
             for nd, c in intconds:
-                if R.eval_cond(c, 'int', R.final_value(nd), nd.get('unit'), trunc=True) is False and \
-                        len([1 for n2, c2 in conds if n2['ty'] in ('int', 'float')]) == 1:
+                if nd['name'] == failing and R.eval_cond(c, 'int', R.final_value(nd), nd.get('unit'), trunc=True) is False:
                     return [dev('wrongly-rejected:int-condition-constant-cast-to-int', dict(exc=obs[1:]), known=R.KEY_INT_TRUNC)]
         return [dev('wrongly-rejected:' + kind, dict(exc=obs[1:]))]
     return []
